@@ -61,6 +61,8 @@ type T struct {
 	Sort  Sort
 	Const bool   // literal constant (bool or bv)
 	V     uint64 // value when Const
+	Op    string // "and" / "=>" for structured boolean terms (goal splitting)
+	Args  []T
 }
 
 func (t T) String() string { return t.S }
@@ -132,7 +134,10 @@ func And(as ...T) T {
 	case 1:
 		return xs[0]
 	}
-	return app(BoolSort, "and", xs...)
+	r := app(BoolSort, "and", xs...)
+	r.Op = "and"
+	r.Args = xs
+	return r
 }
 
 func Or(as ...T) T {
@@ -168,7 +173,39 @@ func Implies(a, b T) T {
 		}
 		return Not(a)
 	}
-	return app(BoolSort, "=>", a, b)
+	r := app(BoolSort, "=>", a, b)
+	r.Op = "=>"
+	r.Args = []T{a, b}
+	return r
+}
+
+// SplitGoal splits a goal into conjuncts (through implications) so that each
+// piece becomes a separate, smaller obligation.
+func SplitGoal(t T, max int) []T {
+	var out []T
+	var rec func(t T) []T
+	rec = func(t T) []T {
+		switch t.Op {
+		case "and":
+			var r []T
+			for _, a := range t.Args {
+				r = append(r, rec(a)...)
+			}
+			return r
+		case "=>":
+			var r []T
+			for _, p := range rec(t.Args[1]) {
+				r = append(r, Implies(t.Args[0], p))
+			}
+			return r
+		}
+		return []T{t}
+	}
+	out = rec(t)
+	if len(out) > max || len(out) == 0 {
+		return []T{t}
+	}
+	return out
 }
 
 func Iff(a, b T) T { return Eq(a, b) }
